@@ -85,6 +85,7 @@ func runC18(c *eng.Ctx) {
 		RunWarmup(c, cr.next)
 		RunBuildDoorsRootContext(c, cr.next)
 		RunTwoBuilds(c, "C18", cr.next)
+		RunForeignScopeContext(c, cr.next)
 		if C18Concurrent != nil {
 			C18Concurrent(c, cr.next)
 		}
